@@ -120,25 +120,28 @@ Definition encode_mgs (I : mgs_inst) (k : nat) : milp :=
   {| cols := mgs_cols I k; rows := mgs_rows I k; obj := []; maximize := false |}.
 
 (* ---- solve(): for k in range(lowerbound, max(lowerbound + 1, len(initial_numbers))) ----
-   [status k] = true iff the model for k ended kOptimal; every other status moves on to k + 1.
+   [status k] = MOptimal iff the model for k ended kOptimal; EVERY other status moves on to k + 1.
    Result: the ks tried in order, and Some k at the first kOptimal / None when the range is exhausted. *)
 Definition mgs_range (lowerbound n_initial : nat) : list nat :=
   seq lowerbound (Nat.max (lowerbound + 1) n_initial - lowerbound).
 
-Fixpoint mgs_loop_on (status : nat -> bool) (ks : list nat) : list nat * option nat :=
+Inductive mstatus := MOptimal | MInfeasible | MOther.   (* MOther: time limit, unknown, error ... *)
+Definition is_opt (s : mstatus) : bool := match s with MOptimal => true | _ => false end.
+
+Fixpoint mgs_loop_on (status : nat -> mstatus) (ks : list nat) : list nat * option nat :=
   match ks with
   | [] => ([], None)
-  | k :: r => if status k then ([k], Some k)
+  | k :: r => if is_opt (status k) then ([k], Some k)
               else let '(tried, res) := mgs_loop_on status r in (k :: tried, res)
   end.
 
-Definition mgs_loop (status : nat -> bool) (lowerbound n_initial : nat) : list nat * option nat :=
+Definition mgs_loop (status : nat -> mstatus) (lowerbound n_initial : nat) : list nat * option nat :=
   mgs_loop_on status (mgs_range lowerbound n_initial).
 
-(* the specification's range (inclusive upper end: a generating set of size len(numbers) always exists
-   when one exists at all) -- used to state what the loop should do *)
+(* the specification's range (without partition constraints a generating set of size len(numbers) + 1
+   always exists: the differences of the sorted numbers and total; so the range must reach it) -- used to state what the loop should do *)
 Definition mgs_range_spec (lowerbound n_initial : nat) : list nat :=
-  seq lowerbound (Nat.max (lowerbound + 1) (n_initial + 1) - lowerbound).
+  seq lowerbound (Nat.max (lowerbound + 1) (n_initial + 2) - lowerbound).
 
 (* self.weight_type(value): int() truncates toward zero, float() is the identity *)
 Definition py_int (q : Q) : Z := Z.quot (Qnum q) (Zpos (Qden q)).
